@@ -4,10 +4,12 @@ CONSTANTS MaxCand, MaxLoss, EmitVectors
 VARIABLES stage, cfg
 vars == <<stage, cfg>>
 Tables2 == [1..2 -> 1..MaxLoss] \cup {[f \in 1..2 |-> 0]}      \* two folds; the all-zero table: score undefined in every fold
-Init == stage = "opts" /\ cfg = [tables |-> << >>, gib |-> FALSE, refit |-> TRUE, kind |-> "grid", nest |-> "plain", n |-> 8]
+Init == stage = "opts" /\ cfg = [tables |-> << >>, gib |-> FALSE, refit |-> TRUE, kind |-> "grid", nest |-> "plain", n |-> 8, strat |-> "refit"]
 PickOpts == /\ stage = "opts"
-            /\ \E g \in BOOLEAN, r \in BOOLEAN, k \in {"grid", "random"}, ne \in {"plain", "pipe", "mux"}, n \in {7, 9} :
-                   cfg' = [cfg EXCEPT !.gib = g, !.refit = r, !.kind = k, !.nest = ne, !.n = n]
+            /\ \E g \in BOOLEAN, r \in BOOLEAN, k \in {"grid", "random"}, ne \in {"plain", "pipe", "mux"}, n \in {7, 9},
+                  st \in {"refit", "update"} :
+                   /\ (st = "update" => ne = "plain")
+                   /\ cfg' = [cfg EXCEPT !.gib = g, !.refit = r, !.kind = k, !.nest = ne, !.n = n, !.strat = st]
             /\ stage' = "cands"
 AddCand == /\ stage = "cands" /\ Len(cfg.tables) < MaxCand
            /\ \E t \in Tables2 : (\A i \in DOMAIN cfg.tables : cfg.tables[i] # t)    \* distinct parameter values
